@@ -16,7 +16,7 @@ from ..core import rule, AnalysisError
 from ..engine import rx, flow, cfg as cfgmod
 from ..engine import pattern as P
 from ..engine.facts import dotted, const, src, walk_func, str_value, enclosing_stmt, ancestors
-from .common import calls, in_try_handling, contains, stmt_nodes, pn, access_paths, assigned_from, guards_of, arms, branch_paths, return_leaves, resolve, guard_implies, resolve_deep, facts_at
+from .common import calls, in_try_handling, contains, stmt_nodes, pn, access_paths, assigned_from, guards_of, arms, branch_paths, return_leaves, resolve, guard_implies, resolve_deep, facts_at, line_sources
 
 
 def _precedence(e):
@@ -182,7 +182,7 @@ def module_encoding(ctx):
     se = [n for n in em if n.left.value.startswith("_source_encoding")]
     ctx.require(comment and se, "emission of coding comment / _source_encoding not found")
     ctx.check(src(comment[0].right) == "self.compiler.source_encoding" and src(se[0].right) == "self.compiler.source_encoding", "emitted.same-source", db.where(comment[0]), "coding comment uses %s, _source_encoding uses %s" % (src(comment[0].right), src(se[0].right)), "both from compiler.source_encoding")
-    first_emit = calls(wt, "self.printer.writeline")
+    first_emit = line_sources(wt)
     ctx.check(bool(first_emit) and "coding" in src(first_emit[0]), "comment-first-line", db.where(wt), "the coding comment is not the first line emitted", "coding comment is line 1")
     # regex agreement
     lre = db.class_assign("lexer.Lexer", "_coding_re")
